@@ -151,8 +151,13 @@ pub struct Obs {
 pub fn new_emu(m128: bool, tape: &[u8], fastload: bool) -> Emu {
     let mut c = Cfg::new(m128);
     c.rom = true;
-    c.fastload = fastload;
+    // every third tape: fast loading is off in the settings and switched on by the host afterwards
+    let late = fastload && tape.len() % 3 == 2;
+    c.fastload = fastload && !late;
     let mut e = emu(&c);
+    if late {
+        e.set_fast_load(true);
+    }
     if m128 {
         // page the 48K BASIC ROM (ROM 1) in, as the 128K does when it enters 48K BASIC/tape loader
         e.verif_write_io(0x7FFD, 0x10);
